@@ -13,6 +13,7 @@ package main
 
 import (
 	"math"
+	"math/big"
 	"strings"
 
 	"github.com/golang/geo/r3"
@@ -200,6 +201,8 @@ func (g *G) c03Edge() (a, b s2.Point) {
 		o := ortho(a)
 		th := (0.25 + 0.5*r.Float()) * math.Pi
 		b = norm(math.Cos(th)*a.X+math.Sin(th)*o.X, math.Cos(th)*a.Y+math.Sin(th)*o.Y, math.Cos(th)*a.Z+math.Sin(th)*o.Z)
+	case 9: // nearly antipodal, float (a+b)x(b-a) cancels EXACTLY although a x b != 0 (finding D48)
+		a, b = g.c03AntiEdge()
 	}
 	return
 }
@@ -350,6 +353,8 @@ func (g *G) c03Quad() (a, b, c, d s2.Point) {
 		d = norm(a.X+s*out.X+sg*t*n.X, a.Y+s*out.Y+sg*t*n.Y, a.Z+s*out.Z+sg*t*n.Z)
 	case 8: // CD = antipodal image of AB / reversed
 		c, d = negP(a), negP(b)
+	case 9, 10: // AB nearly antipodal with exactly cancelling float cross product, CD across its arc (finding D48)
+		a, b, c, d = g.c03AntiQuad()
 	}
 	if r.Intn(4) == 0 { // random role exchange
 		switch r.Intn(3) {
@@ -378,6 +383,13 @@ func genC03(g *G) {
 		g.emit("c03quad", ptArgs(a, b, c, d)...)
 		if it%8 == 0 {
 			g.emit("c03new", ptArgs(a, b)...)
+		}
+		if it%16 == 2 { // finding D48: one more quadruple (and the crosser fields) on an exactly cancelling nearly antipodal edge
+			qa, qb, qc, qd := g.c03AntiQuad()
+			g.emit("c03quad", ptArgs(qa, qb, qc, qd)...)
+			if it%32 == 2 {
+				g.emit("c03new", ptArgs(qa, qb)...)
+			}
 		}
 		if it%4 == 1 { // angle at b between a and c
 			x, y, z := a, b, c
@@ -452,3 +464,176 @@ func genC03(g *G) {
 
 // referenceDirOf reproduces Point.referenceDir (= s2.Ortho) through the public API.
 func referenceDirOf(p s2.Point) s2.Point { return s2.Ortho(p) }
+
+// ---------------------------------------------------------------------------------------------
+// finding D48: nearly antipodal edges AB whose float (a+b) x (b-a) is EXACTLY the zero vector although a x b != 0.
+//
+// Take an integer direction (p, q, r) of integer length h (Pythagorean triple / quadruple), a = (p, q, r)/h moved by
+// up to 8 ulps per coordinate and b = -(a + m*e*(p, q, r)) for a small non-zero integer m, e the smallest power of
+// two for which the three sums are representable.  Then a+b = -m*e*(p, q, r) exactly, b-a is nearly -2a, and every
+// component of the float cross product is a difference of two roundings of nearly the same real number: for some
+// (i, j, k, m) all three cancel exactly.  The true a x b = -m*e*(a x (p, q, r)) is not zero, so the edge is
+// geometrically defined (its arc passes through one of the two directions at 90 degrees from a in its plane), but
+// PointCross(a, b) falls back to the arbitrary a.Ortho().  |b|^2 - |a|^2 is about 2*m*e*h, which must fit into the
+// unit-length tolerance (both points are kept within | |p|^2 - 1 | <= 2^-50): that leaves the directions below.
+
+// c03AntiDirs: the integer directions for which such pairs exist within the tolerance (found by enumeration over all
+// primitive (p, q, r) with h <= 90; (8,15,17), (7,24,25), (20,21,29), ... need |b|^2 - |a|^2 > 2^-49).
+var c03AntiDirs = [][3]int{{0, 3, 4}, {0, 5, 12}, {1, 2, 2}, {1, 4, 8}, {1, 8, 32}, {1, 12, 12}, {2, 3, 6}, {3, 4, 12}, {3, 16, 24}, {4, 5, 20}}
+
+// c03AntiPairs[i] lists every pair for direction c03AntiDirs[i] (fixed enumeration order; built on first use).
+var c03AntiPairs [][][2]s2.Point
+
+func c03Big(x float64) *big.Float { return new(big.Float).SetPrec(512).SetFloat64(x) }
+
+func c03BigMul(x, y float64) *big.Float { return new(big.Float).SetPrec(512).Mul(c03Big(x), c03Big(y)) }
+
+// c03NearUnit: | |p|^2 - 1 | <= 2^-50, evaluated exactly.
+func c03NearUnit(p s2.Point) bool {
+	s := c03Big(-1)
+	for _, c := range [3]float64{p.X, p.Y, p.Z} {
+		s.Add(s, c03BigMul(c, c))
+	}
+	return s.Abs(s).Cmp(c03Big(math.Ldexp(1, -50))) <= 0
+}
+
+// c03ExactCross: a x b evaluated exactly, rounded to float64 component by component (the direction is what matters).
+func c03ExactCross(a, b s2.Point) r3.Vector {
+	f := func(x, y, z, w float64) float64 {
+		v, _ := new(big.Float).SetPrec(512).Sub(c03BigMul(x, y), c03BigMul(z, w)).Float64()
+		return v
+	}
+	return r3.Vector{X: f(a.Y, b.Z, a.Z, b.Y), Y: f(a.Z, b.X, a.X, b.Z), Z: f(a.X, b.Y, a.Y, b.X)}
+}
+
+// c03FloatCrossCancels: the expression of PointCross (and of the repaired NewEdgeCrosser) is exactly zero.
+func c03FloatCrossCancels(a, b s2.Point) bool {
+	return a.Add(b.Vector).Cross(b.Sub(a.Vector)) == r3.Vector{}
+}
+
+func c03AntiBuild() {
+	c03AntiPairs = make([][][2]s2.Point, len(c03AntiDirs))
+	for di, dir := range c03AntiDirs {
+		h := math.Sqrt(float64(dir[0]*dir[0] + dir[1]*dir[1] + dir[2]*dir[2]))
+		lo, hi := [3]int{}, [3]int{}
+		for i := 0; i < 3; i++ {
+			if dir[i] != 0 {
+				lo[i], hi[i] = -8, 8
+			}
+		}
+		for i0 := lo[0]; i0 <= hi[0]; i0++ {
+			for i1 := lo[1]; i1 <= hi[1]; i1++ {
+				for i2 := lo[2]; i2 <= hi[2]; i2++ {
+					var av [3]float64
+					e := 0.0
+					for i, k := range [3]int{i0, i1, i2} {
+						if dir[i] == 0 {
+							continue
+						}
+						av[i] = ulps(float64(dir[i])/h, k)
+						_, ex := math.Frexp(av[i])
+						if q := math.Ldexp(1, ex-53) / float64(dir[i]&-dir[i]); q > e {
+							e = q
+						}
+					}
+					a := rawPt(av[0], av[1], av[2])
+					for _, m := range [6]float64{1, -1, 2, -2, 3, -3} {
+						var bv [3]float64
+						for i := 0; i < 3; i++ {
+							if dir[i] != 0 {
+								bv[i] = -(av[i] + m*e*float64(dir[i]))
+							}
+						}
+						b := rawPt(bv[0], bv[1], bv[2])
+						if !c03FloatCrossCancels(a, b) || !c03NearUnit(a) || !c03NearUnit(b) {
+							continue
+						}
+						if c03ExactCross(a, b) == (r3.Vector{}) { // exactly (anti)parallel: no edge
+							continue
+						}
+						c03AntiPairs[di] = append(c03AntiPairs[di], [2]s2.Point{a, b})
+					}
+				}
+			}
+		}
+	}
+}
+
+// c03AntiEdge returns a nearly antipodal edge AB (never exactly antipodal, a x b != 0, both points unit within 2^-50)
+// for which the float (a+b) x (b-a) is exactly zero; direction, coordinate permutation, signs and orientation vary.
+func (g *G) c03AntiEdge() (a, b s2.Point) {
+	r := g.rng
+	if c03AntiPairs == nil {
+		c03AntiBuild()
+	}
+	di := r.Intn(len(c03AntiDirs))
+	if r.Intn(3) == 0 {
+		di = r.Intn(2) // the two planar directions (3,4,5), (5,12,13)
+	}
+	l := c03AntiPairs[di]
+	perm, sg := r.Intn(6), r.Intn(8)
+	if len(l) == 0 { // cannot happen with the table above; the known witness
+		return rawPt(pF("3fe3333333333332"), pF("3fe9999999999999"), 0), rawPt(pF("bfe3333333333335"), pF("bfe999999999999d"), 0)
+	}
+	pr := l[r.Intn(len(l))]
+	a, b = permAxes(pr[0], perm, sg), permAxes(pr[1], perm, sg)
+	if !c03FloatCrossCancels(a, b) { // permutations and sign flips commute with every rounding: cannot happen
+		a, b = pr[0], pr[1]
+	}
+	if r.Bool() {
+		a, b = b, a
+	}
+	return
+}
+
+// c03AntiQuad: such an edge AB and an edge CD placed relative to the arc AB: C and D on the great circle through the
+// normal of AB and a point P(phi) = cos(phi) W + sin(phi) A of the great circle of AB (W = the midpoint of the arc AB
+// when side = +1, of the complementary arc when side = -1; phi = 0, anywhere, or next to A / B), at distances
+// tc, td (0.1, 2^-k, anything) on opposite sides (a crossing iff side = +1) or on the same side of the plane of AB.
+func (g *G) c03AntiQuad() (a, b, c, d s2.Point) {
+	r := g.rng
+	a, b = g.c03AntiEdge()
+	n := c03ExactCross(a, b).Normalize()
+	w := n.Cross(a.Vector).Normalize() // direction of the arc midpoint (the arc leaves a towards n x a)
+	if r.Intn(4) == 0 {
+		w = w.Mul(-1)
+	}
+	phi := func() float64 {
+		switch r.Intn(5) {
+		case 0:
+			return 0
+		case 1: // next to a
+			return math.Pi/2 - math.Ldexp(1+r.Float(), -1-r.Intn(30))
+		case 2: // next to b
+			return -math.Pi/2 + math.Ldexp(1+r.Float(), -1-r.Intn(30))
+		}
+		return (r.Float()*2 - 1) * 1.5
+	}
+	dist := func() float64 {
+		switch r.Intn(4) {
+		case 0:
+			return 0.1
+		case 1:
+			return math.Ldexp(1+r.Float(), -1-r.Intn(52))
+		}
+		return r.Float()
+	}
+	at := func(ph, t float64) s2.Point {
+		cs, sn := math.Cos(ph), math.Sin(ph)
+		return norm(cs*w.X+sn*a.X+t*n.X, cs*w.Y+sn*a.Y+t*n.Y, cs*w.Z+sn*a.Z+t*n.Z)
+	}
+	pc := phi()
+	pd := pc
+	if r.Intn(3) == 0 {
+		pd = phi()
+	}
+	tc, td := dist(), -dist()
+	if r.Intn(8) == 0 { // same side: no crossing
+		td = -td
+	}
+	c, d = at(pc, tc), at(pd, td)
+	if r.Bool() {
+		c, d = d, c
+	}
+	return
+}
